@@ -254,7 +254,7 @@ class TU:
                 return w
             changed[0] = True
             return u
-        out = re.sub(r'[A-Za-z_][A-Za-z_0-9]*', rep, qt)
+        out = re.sub(r'(?<!enum )(?<!struct )(?<!union )\b[A-Za-z_][A-Za-z_0-9]*', rep, qt)
         if changed[0]:
             return self.desugar(out, depth + 1)
         return out
